@@ -113,8 +113,31 @@ def local_names_inside_function_names():
     return out
 
 
+def builtins_in_custom_terms():
+    """Custom sequences whose term applies a built-in that only works on NUMBERS (round, of the iterator or of a parameter still
+    symbolic at compile time) over a child with an additive and a multiplicative resource, count symbolic, numeric and 0:
+    compiled as they stand, never an internal error of the built-in."""
+    def node(name, params=(), links=(), kids=(), res=(), rep=None):
+        return {"name": name, "type": None, "input_params": list(params), "local_variables": [], "linked_params": [list(l) for l in links],
+                "ports": [], "resources": list(res), "connections": [], "repetition": rep, "children": list(kids)}
+    out = []
+    terms = [E.op("add", E.fun("round", E.op("div", E.sym("i"), E.num(2))), E.sym("w")),
+             E.op("mul", E.fun("round", E.sym("w")), E.op("add", E.sym("i"), E.num(1))),
+             E.op("add", E.fun("round", E.op("div", E.sym("w"), E.num(3)), E.num(1)), E.sym("i"))]
+    for t in terms:
+        for count in (E.sym("c"), E.num(3), E.num(0), E.op("add", E.sym("c"), E.num(1))):
+            body = node("body", params=["N"], res=[{"name": "T", "type": "additive", "value": E.op("mul", E.num(7), E.sym("N"))},
+                                                  {"name": "P", "type": "multiplicative", "value": E.op("add", E.sym("N"), E.num(1))}])
+            loop = node("loop", params=["N", "w", "c"], links=[["N", [["body", "N"]]]], kids=[body],
+                        rep={"count": count, "sequence": {"kind": "custom", "term_expression": t, "iterator_symbol": "i"}})
+            out.append({"routine": node("root", params=["N", "w", "c"], links=[[x, [["loop", x]]] for x in ("N", "w", "c")], kids=[loop]),
+                        "faulted": False, "seed": 11})
+            out.append({"routine": loop, "faulted": False, "seed": 12})
+    return out
+
+
 def gen_cases(rng, n_valid, n_fault):
-    out = iterator_named_like_a_parameter() + degenerate_sequences() + local_names_inside_function_names()
+    out = iterator_named_like_a_parameter() + degenerate_sequences() + local_names_inside_function_names() + builtins_in_custom_terms()
     while len(out) < n_valid:
         r = H.gen_hierarchy(rng, max_depth=rng.randint(1, 3), p_rep=0.35, p_through=0.2)
         if H.count_nodes(r) <= 10:
